@@ -1,7 +1,13 @@
 -- Root of the library: everything the checks build.
 import OsacaVerif.Props.C01
 import OsacaVerif.Props.C02
+import OsacaVerif.Props.C03
+import OsacaVerif.Props.C04
+import OsacaVerif.Props.C05
+import OsacaVerif.Props.C06
 import OsacaVerif.Props.C12
+import OsacaVerif.Props.C14
 import OsacaVerif.Props.C15
 import OsacaVerif.Driver.C01
 import OsacaVerif.Driver.C12
+import OsacaVerif.Driver.DGraph
